@@ -238,8 +238,13 @@ Model(D, r, s, e) ==
 
 \* what a deviating real call may look like (sanitizer build: dies; plain build: wrapped value)
 DevOuts(m) == IF m.out = UB THEN {UB, O("T", "other")} ELSE {m.out}
-\* errno as left for the next call (only matters for the applicability of the stale-errno deviations)
-ErrnoAfter(r, e) == IF r \in {"uint", "float"} THEN "clean" ELSE e
+\* errno as left for the next call.  It only decides whether a stale-errno deviation may explain a later
+\* call, so it over-approximates "may hold ERANGE": the uint/float readers return early (errno untouched)
+\* for an unset/empty variable; otherwise today's code leaves 0, but an implementation that saves and
+\* restores errno would leave what it found - "maybe" covers both.  "maybe" is read as either.
+ErrnoAfter(r, s, e) ==
+  IF r \in {"uint", "float"} /\ ~(s = Unset \/ Empty(s)) THEN (IF e = "clean" THEN "clean" ELSE "maybe") ELSE e
+Readings(e) == IF e = "maybe" THEN {"clean", "erange"} ELSE {e}
 
 (* ======================= 1c / 2b. resources ============================ *)
 SvcKey == "service.name"
@@ -337,7 +342,7 @@ VARIABLES env,      \* [toks, svc]: the environment the process was started with
           envalt,   \* the reading of it (one of EnvAlts) this behaviour assumes
           pool,     \* resources created so far (1 = GetDefault(), 2 = GetEmpty())
           provs,    \* providers: [kind, res]
-          errno,    \* "clean" | "erange": errno before the next call
+          errno,    \* "clean" | "erange" | "maybe": errno before the next call
           dead,     \* the process was killed by undefined behaviour
           last,     \* the last step with its result (partition modes: the case under test)
           devUsed, nsteps,
@@ -411,12 +416,15 @@ Emit(p) ==
 Read(r, s, e) ==
   /\ Live /\ Step
   /\ LET eff == IF e = "asis" THEN errno ELSE e
-         m   == Model(Dev, r, s, eff)
-         mAll == Model(AllDevs, r, s, eff)
-     IN /\ last' = [op |-> "Read", r |-> r, s |-> s, e |-> eff, out |-> m.out, dev |-> m.dev]
+         ee  == IF eff = "maybe" THEN "erange" ELSE eff      \* the generator commits to one reading
+         m   == Model(Dev, r, s, ee)
+         mAll == Model(AllDevs, r, s, ee)
+     IN /\ last' = [op |-> "Read", r |-> r, s |-> s, e |-> eff, out |-> m.out, dev |-> m.dev, ea |-> e,
+                     \* one step of memory: the call before was a uint read that strtoull itself ranges out
+                     afterRange |-> (last.op = "Read" /\ last.r = "uint" /\ last.s # Unset /\ last.s.body = "d10" /\ Plain(last.s))]
         /\ devUsed' = IF m.dev = "none" THEN devUsed ELSE devUsed \cup {m.dev}
         /\ dead' = (m.out = UB)
-        /\ errno' = ErrnoAfter(r, eff)
+        /\ errno' = ErrnoAfter(r, s, eff)
         /\ Rec([op |-> "Read", r |-> r, s |-> s, errno |-> e, exp |-> Contract(r, s),
                 dev |-> mAll.dev, expDev |-> DevOuts(mAll)])
   /\ UNCHANGED <<env, envalt, pool, provs>>
@@ -503,23 +511,29 @@ Terminal == dead \/ nsteps = MaxSteps
 EmitAll == (Hist /\ Terminal) => PrintT(<<"BEH", ToJson(hist)>>)
 Wit(c) == (Hist /\ c) => (PrintT(<<"BEH", ToJson(hist)>>) /\ FALSE)      \* shortest behaviour reaching c
 \* rare conditions that must be replayed on the real code on every run
-WitFallback   == Wit(\E i \in 1..Len(pool) : SvcKey \in DOMAIN pool[i].attrs /\ pool[i].attrs[SvcKey] = "ANY")
+CFallback == \E i \in 1..Len(pool) : SvcKey \in DOMAIN pool[i].attrs /\ pool[i].attrs[SvcKey] = "ANY"
+CUserOverEnv == last.op = "Create" /\ \E k \in DOMAIN last.user \cap DOMAIN envalt : last.user[k] # envalt[k]
+CEnvOverDefault == last.op = "Create" /\ \E k \in DOMAIN envalt \cap DOMAIN DefaultRes.attrs : k \notin DOMAIN last.user
+CSvcEnvBoth == last.op = "Create" /\ env.svc.c = "set" /\ \E i \in 1..Len(env.toks) : env.toks[i].t = "kv" /\ env.toks[i].k = SvcKey /\ env.toks[i].v # env.svc.v
+\* vacuity guards for a full BFS export: TLC says which rare conditions the exported behaviours contain
+Tag(n, c) == c => PrintT(<<"TAG", n>>)
+TagAll == Tag("Fallback", CFallback) /\ Tag("UserOverEnv", CUserOverEnv) /\ Tag("EnvOverDefault", CEnvOverDefault)
+          /\ Tag("SvcEnvBoth", CSvcEnvBoth)
+WitFallback   == Wit(CFallback)
 WitUrlKept    == Wit(last.op = "Merge" /\ pool[last.b].url = "" /\ pool[last.a].url # "")
 WitUrlWins    == Wit(last.op = "Merge" /\ pool[last.b].url # "" /\ pool[last.a].url # "" /\ pool[last.a].url # pool[last.b].url)
 WitOverlap    == Wit(last.op = "Merge" /\ \E k \in DOMAIN pool[last.a].attrs \cap DOMAIN pool[last.b].attrs :
                                               pool[last.a].attrs[k] # pool[last.b].attrs[k])
 WitMergeOfMerged == Wit(last.op = "Merge" /\ last.a > 2 /\ last.b > 2 /\ last.a # last.b /\ Len(pool) >= 6)
-WitUserOverEnv == Wit(last.op = "Create" /\ \E k \in DOMAIN last.user \cap DOMAIN envalt : last.user[k] # envalt[k])
-WitEnvOverDefault == Wit(last.op = "Create" /\ \E k \in DOMAIN envalt \cap DOMAIN DefaultRes.attrs : k \notin DOMAIN last.user)
-WitSvcEnvBoth == Wit(last.op = "Create" /\ env.svc.c = "set" /\ \E i \in 1..Len(env.toks) : env.toks[i].t = "kv" /\ env.toks[i].k = SvcKey /\ env.toks[i].v # env.svc.v)
+WitUserOverEnv == Wit(CUserOverEnv)
+WitEnvOverDefault == Wit(CEnvOverDefault)
+WitSvcEnvBoth == Wit(CSvcEnvBoth)
 WitRepeated   == Wit(last.op = "Create" /\ \E i, j \in 1..Len(env.toks) : i < j /\ env.toks[i].t = "kv" /\ env.toks[j].t = "kv"
                                               /\ env.toks[i].k = env.toks[j].k /\ env.toks[i].v # env.toks[j].v)
 WitEmitAfterMerge == Wit(last.op = "Emit" /\ provs[last.p].res > 2 /\ Len(provs) >= 2)
 WitStaleThenRead == Wit(last.op = "Read" /\ last.e = "erange" /\ nsteps >= 2)
 WitDeadMachine == Wit(dead)
 \* an out-of-range uint (strtoull sets ERANGE itself) directly followed by a valid one, errno untouched in between
-WitRangeThenAsis == Wit(Len(hist) >= 3 /\ hist[Len(hist) - 1].op = "Read" /\ hist[Len(hist) - 1].r = "uint"
-                        /\ hist[Len(hist) - 1].s.body = "d10" /\ Plain(hist[Len(hist) - 1].s)
-                        /\ hist[Len(hist)].op = "Read" /\ hist[Len(hist)].errno = "asis"
-                        /\ hist[Len(hist)].r \in {"uint", "float"} /\ Documented(hist[Len(hist)].r, hist[Len(hist)].s))
+WitRangeThenAsis == Wit(last.op = "Read" /\ last.afterRange /\ last.ea = "asis" /\ last.r \in {"uint", "float"}
+                        /\ Documented(last.r, last.s))
 =============================================================================
